@@ -645,6 +645,34 @@ def directed_histories():
     return hists
 
 
+def directed_float_histories():
+    """floating-point constants of every kind that is exactly representable (numpy float64 /
+    float32 scalars, integer-valued floats): 2.0 must stay a FLOATING constant in C -- next to
+    an integer literal `1 / 2` is integer division"""
+    import numpy as np
+    x, y, z = V[0], V[1], V[2]
+    out = []
+    for c in (np.float64(2.0), np.float32(4.0), np.float64(3.0), 2.0, np.float64(0.5), np.float32(0.25),
+              np.float64(-2.0), np.float64(1e20), np.float32(8.0)):
+        out += [p.Quotient(1, c), p.Quotient(7, c), p.Product((p.Quotient(3, c), x)),
+                p.Quotient(p.Power(x, 0), c), p.Sum((p.Quotient(1, c), p.Quotient(y, c))),
+                p.Quotient(p.Product((3, 5)), p.Product((c, 1))), p.Quotient(c, 4),
+                p.Product((c, p.Quotient(1, c)))]
+        if not isinstance(c, np.float32):   # (float32 ** rounds to float32 in the evaluator)
+            out.append(p.Power(p.Sum((x, 3.0)), c))
+    hists = [([e], [("map", 0, 0)]) for e in out]
+    # look-alike prefixes: a prefix that reads like a name the mapper would derive itself
+    # ("u_3" hoisted first, then "u" three times; "t_2" next to "t")
+    for first, base in (("u_3", "u"), ("t_2", "t"), ("v_2_2", "v_2"), ("w_2", "w")):
+        ks = [CSE(p.Sum((x, 1.5)), first), CSE(p.Sum((y, 2.5)), base), CSE(p.Product((z, 3.0)), base),
+              CSE(p.Sum((x, y)), base), CSE(p.Sum((z, 0.5)), first)]
+        es = [p.Sum((ks[0], 1.0)), p.Product((ks[1], ks[2])), p.Sum((ks[3], ks[4], ks[0])),
+              p.Sum((ks[2], ks[1], ks[3]))]
+        hists.append((es, [("map", 0, 0), ("map", 1, 0), ("copy", 0), ("map", 2, 0), ("map", 3, 1),
+                           ("map", 2, 1)]))
+    return hists
+
+
 def workload(ctx):
     rng = ctx.rng
     with HandlerTrace([cmod, strmod]) as tr:
@@ -657,6 +685,10 @@ def workload(ctx):
                     h = make_history(rng, kind)
                     if h is not None:
                         hists.append(h)
+                if kind == "float" and u == 0 and ctx.shard == 0:
+                    dh = directed_float_histories()
+                    ctx.count("directed_float_histories", len(dh))
+                    hists += dh
                 if kind == "int" and u == 0 and ctx.shard == 0:
                     dh = [h for h in directed_histories() if in_range(h[0][0], GRID_I)]
                     ctx.count("directed_histories", len(dh))
@@ -688,4 +720,5 @@ def workload(ctx):
     ctx.floor("cse_assignments", 100)
     ctx.floor("histories", 300)
     ctx.floor("directed_histories", 55)
+    ctx.floor("directed_float_histories", 60)
     ctx.floor("failed_renders_in_history", 30)
